@@ -10,8 +10,12 @@ duplicate-free action list holding exactly the distinct labels and identical in 
 every fresh object and -- for a sample -- in two child interpreters with different PYTHONHASHSEED, reward 1 for the
 label and 0 otherwise, Jaccard overlap for multi-label, -|a-y| for regression, and for take=n a size-min(n,N)
 sub-multiset that is the same in every read / object / process.
+
+Files are written in varied physical layouts and with text cells that hold characters which are ordinary data for the format
+(_gen_file_form); when a case on such a file fails, it is re-run with those features switched off one by one and the signature
+names the features the failure needs (_refine), e.g. csv[text=brk]/count/mode=extra-interactions.
 """
-import os, sys, json, random, tempfile, shutil, subprocess, warnings
+import os, sys, json, gzip, random, tempfile, shutil, subprocess, warnings
 from collections import Counter
 
 ID    = "C14"
@@ -19,7 +23,10 @@ LEVEL = "exploration"
 RULE  = ("seeded example sets (0-40 examples; str/int/float/Categorical/singleton-list/multi-label labels; label type "
          "c/r/m/inferred; dense, sparse, scalar and None features; single-class, late-label, duplicate-example "
          "patterns) x 9 entry paths (X,Y | pair source | dense rows+label index | sparse rows+label key | CSV | ARFF "
-         "dense | ARFF sparse | LibSVM | Manik; label column by index and by header; with and without take); a case "
+         "dense | ARFF sparse | LibSVM | Manik; label column by index and by header; with and without take; files in "
+         "varied layouts: LF/CRLF, no final line end, blank tail, gz, file:// url, tabs / runs of blanks in libsvm, > 1 MiB, "
+         "ARFF comment lines, quoted cells, text cells and labels with punctuation / control / unicode line-boundary / non-ascii "
+         "chars / blanks / commas inside); a case "
          "is one example set on one path, read twice from one object, once from a fresh object and once through "
          "Environments.from_supervised; distinct & non-trivial = distinct (path, label kind, label type, column "
          "form, feature kind, take class, label pattern, size class) with at least two examples")
@@ -30,7 +37,9 @@ REQUIRED = ["oracle.count_order", "oracle.context", "oracle.context.lazy_access"
             "oracle.reward.jaccard", "oracle.reward.l1", "oracle.reread", "oracle.fresh_object", "oracle.finalized",
             "oracle.take.submultiset", "oracle.take.deterministic", "oracle.crossprocess.compared",
             "path.xy", "path.pairs", "path.rows_dense", "path.rows_sparse", "path.csv", "path.arff_dense",
-            "path.arff_sparse", "path.libsvm", "path.manik", "labelcol.index", "labelcol.header"]
+            "path.arff_sparse", "path.libsvm", "path.manik", "labelcol.index", "labelcol.header",
+            "file.plain", "file.text.punct", "file.text.ctrl", "file.text.brk", "file.text.uni", "file.text.blank", "file.text.comma",
+            "file.quoted", "file.eol_crlf", "file.no_final_eol", "file.blank_tail", "file.gz", "file.url", "file.blanks", "file.big", "file.arff_comments"]
 ASSUMPTIONS = [
     "'fixed order' is asserted as the same order in every interaction, read, fresh object and process, not a particular collation",
     "label sets are mutually orderable (no mixed str/int), label lists and probed label subsets hold no duplicates",
@@ -40,7 +49,13 @@ ASSUMPTIONS = [
     "multi-label rewards are probed with label subsets (sequences), the argument form HammingReward documents",
     "with take the action list is only required to lie between the labels of the sample and the labels of the whole data",
     "classification with list-valued labels uses singleton lists; multi-element label lists are only used with label type m",
-    "file workloads hold plainly formatted values (no quotes, blanks, missing markers, comments); CSV cells are compared as the written text",
+    "file workloads hold no missing markers, escapes, quote chars inside values or multi-line fields; CSV cells are compared as the written text",
+    "text cells / labels of files may hold, strictly inside the cell (first and last char alphanumeric), chars that are plain data for the "
+    "format: ascii punctuation other than , ' \" \\ % ? { }, control chars other than CR / LF / NUL, non-ascii chars (incl. NEL, "
+    "U+2028/9, no-break and ideographic blanks); blanks and commas inside a cell only where the format keeps them (CSV: blanks anywhere, "
+    "commas in double-quoted cells; ARFF: both only in quoted string values); libsvm/manik labels hold no blank, comma or colon",
+    "a file's records end at LF or CRLF only; the last record may lack its line end; blank lines after the data, '%' comment lines in "
+    "an ARFF file, a .gz file, a file:// url, several blanks / tabs between libsvm items and a file bigger than 1 MiB are all the same data",
     "label types are only combined with label values they are defined for (no r on strings, no m on scalars, CSV: c or inferred)",
     "contexts of lazy rows are read through iteration, len, non-negative integer indexing (dense) and items/keys/[] (sparse) only",
     "the finalised view (Environments.from_supervised(...)[0]) is checked for count, rewards per offered action and contexts without Categorical cells",
@@ -52,6 +67,19 @@ STR_POOL   = ["a", "b", "c", "aa", "ab", "B", "z", "10", "9", "-1", "1", "yes", 
 INT_POOL   = [-3, -2, -1, 0, 1, 2, 3, 5, 7, 10, 12]
 FLOAT_POOL = [-1.5, 0.0, 0.5, 1.0, 2.5, 3.25, 10.0, -0.25, 7.75]
 TOK_POOL   = ["p", "q", "r", "lo", "mid", "hi", "t1", "t2", "u", "v", "w", "x", "y", "z", "m5"]
+
+# characters that are ordinary field content for the csv / arff / libsvm / manik formats (none of them separates records or -- where
+# they are used -- fields).  They always sit in the interior of a cell, between alphanumeric tokens.
+TEXT_CHARS = {"punct": ";:|#!$&*+-./<=>@^_~()[]",                         # ascii punctuation that is no syntax of the format
+              "ctrl":  "\x01\x08\x1f\x7f",                                 # ascii control chars
+              "brk":   "\x0b\x0c\x1c\x1d\x1e\x85\u2028\u2029",                 # what unicode (but no file format) calls a line boundary
+              "uni":   "\u00e9\u00df\u03a9\u65e5\u672c\U0001f600\u00a0\u3000\u200b",   # letters beyond ascii / latin-1 / the BMP, odd blanks
+              "blank": " \t",                                             # blanks inside a cell
+              "comma": ","}                                               # the field separator inside a quoted cell
+# how the file is laid out on disk; the default is what the module always wrote
+FILE_DEFAULT = {"eol": "\n", "final_eol": True, "blank_tail": 0, "gz": False, "url": False, "sep": " ", "long": 0, "long_col": None,
+                "comments": [], "comment_cls": None}
+FILE_MODES = ("csv", "arff_dense", "arff_sparse", "libsvm", "manik")
 
 # ================================================================================================ generator
 def _pick_labels(rng, pool, n):
@@ -224,7 +252,110 @@ def gen_case(rng, mode=None, hash_sensitive=False):
         take = rng.choice([0, 1, 2, 3, max(n-1, 0), n, n+1, n+5, 2*n+1])
     if spec["pattern"] == "multi-empty": take = None
     spec["take"] = take
+    if mode in FILE_MODES: _gen_file_form(rng, spec)
     return spec
+
+def _rich(rng, chars):
+    """tokens joined by one or two of the given characters: token (chars token)+"""
+    s = rng.choice(TOK_POOL)
+    for _ in range(rng.choice([1, 1, 1, 2, 3])):
+        s += "".join(rng.choice(chars) for _ in range(rng.choice([1, 1, 1, 2]))) + rng.choice(TOK_POOL)
+    return s
+
+def _gen_file_form(rng, spec):
+    """physical layout of the file (line ends, final newline, blank tail, gz, file:// url, blank kind, size beyond one read chunk) and
+    text cells / labels that hold characters which are plain data for the format; spec['plain'] keeps the example set without them"""
+    mode, kind, n = spec["mode"], spec["label_kind"], spec["n"]
+    form = dict(FILE_DEFAULT)
+    if rng.random() < .2: form["eol"] = "\r\n"
+    if rng.random() < .2: form["final_eol"] = False
+    elif rng.random() < .12: form["blank_tail"] = rng.choice([1, 2])
+    if rng.random() < .1: form["gz"] = True
+    if rng.random() < .15: form["url"] = True
+    if mode in ("libsvm", "manik") and rng.random() < .3: form["sep"] = rng.choice(["\t", "  ", " \t"])
+
+    text = quote = None
+    X, Y = [list(x) for x in spec["X"]], list(spec["Y"])
+    if mode == "csv":                    text_cols = list(range(len(X[0]))) if X else []
+    elif mode == "arff_dense":           text_cols = [i for i, c in enumerate(spec["cols"]) if c["type"] == "string"]
+    else:                                text_cols = []
+    text_label = (mode == "csv") or (mode == "arff_dense" and kind == "str") or mode in ("libsvm", "manik")
+    if mode != "arff_sparse" and n and rng.random() < .45:
+        if mode == "csv":          cls = rng.choice(["punct", "ctrl", "brk", "brk", "uni", "blank", "comma"])
+        elif mode == "arff_dense": cls = rng.choice(["punct", "ctrl", "brk", "brk", "uni", "blank", "comma"])
+        else:                      cls = rng.choice(["punct", "ctrl", "uni"])
+        chars = TEXT_CHARS[cls]
+        if mode == "arff_dense" and cls == "blank": chars = " "                       # a tab may be the field separator of an arff file
+        if mode in ("libsvm", "manik"): chars = "".join(c for c in chars if not c.isspace() and c not in ",:")   # labels are blank-free tokens
+        need_quote = cls == "comma" or (mode == "arff_dense" and cls == "blank")
+        if mode in ("csv", "arff_dense") and (need_quote or rng.random() < .3):
+            quote = '"' if mode == "csv" else rng.choice(["'", '"'])
+        changed = False
+        if text_cols:
+            p = rng.choice([.25, .5, 1.])
+            for x in X:
+                for j in text_cols:
+                    if rng.random() < p: x[j] = _rich(rng, chars); changed = True
+            if not changed: X[rng.randrange(n)][rng.choice(text_cols)] = _rich(rng, chars); changed = True
+        if text_label and (not changed or rng.random() < .3):
+            deco = {}
+            def d(l):
+                if l not in deco: deco[l] = l + rng.choice(chars) + "q"
+                return deco[l]
+            Y = [[d(l) for l in y] if isinstance(y, list) else d(y) for y in Y]
+            changed = True
+        if changed:
+            text = cls
+            spec["plain"] = {"X": spec["X"], "Y": spec["Y"]}
+            spec["X"], spec["Y"] = X, Y
+        else: quote = None
+    elif mode in ("csv", "arff_dense") and (text_cols or (text_label and mode == "arff_dense")) and rng.random() < .1:
+        quote = '"' if mode == "csv" else rng.choice(["'", '"'])                      # quoted plain cells
+    if mode in ("arff_dense", "arff_sparse") and rng.random() < .2:                     # '%' comment lines in the header and between the data rows
+        form["comment_cls"] = text or rng.choice(sorted(TEXT_CHARS))
+        form["comments"] = [[rng.randint(-1, n), "% " + _rich(rng, TEXT_CHARS[form["comment_cls"]])] for _ in range(rng.choice([1, 1, 2, 3]))]
+    if text_cols and n >= 13 and rng.random() < .12:                                   # a file larger than one read chunk (2**20 chars)
+        form["long"], form["long_col"] = min(110000, 1500000 // n + 1), rng.choice(text_cols)
+    spec["file"], spec["text"], spec["quote"] = form, text, quote
+
+def _long(cell, L):
+    unit = cell + "_"
+    return (unit * (L // len(unit) + 1))[:L] + "z"
+
+def expand(spec):
+    """the example set a compact spec stands for (the cells of the 'long' column are blown up to their length)"""
+    form = spec.get("file") or {}
+    L, c = form.get("long", 0), form.get("long_col")
+    if not L or spec.get("_expanded"): return spec
+    s = dict(spec); s["_expanded"] = True
+    s["X"] = [[_long(v, L) if j == c else v for j, v in enumerate(x)] for x in spec["X"]]
+    return s
+
+def file_form(spec): return {**FILE_DEFAULT, **(spec.get("file") or {})}
+
+def file_flags(spec):
+    """[(name, the same spec with that one feature of the file switched off)] for the features that are on"""
+    if spec["mode"] not in FILE_MODES: return []
+    form, out = file_form(spec), []
+    def sub(**kw): return dict(spec, file={**form, **kw})
+    if spec.get("text"):
+        out.append((f"text={spec['text']}", dict(spec, X=spec["plain"]["X"], Y=spec["plain"]["Y"], text=None)))
+    if spec.get("quote") and not (spec.get("text") == "comma" or (spec.get("text") == "blank" and spec["mode"] == "arff_dense")):
+        out.append(("quoted", dict(spec, quote=None)))
+    if form["eol"] != "\n":  out.append(("eol=crlf", sub(eol="\n")))
+    if not form["final_eol"]: out.append(("no-final-eol", sub(final_eol=True)))
+    if form["blank_tail"]:    out.append(("blank-tail", sub(blank_tail=0)))
+    if form["gz"]:            out.append(("gz", sub(gz=False)))
+    if form["url"]:           out.append(("file-url", sub(url=False)))
+    if form["sep"] != " ":    out.append(("blanks", sub(sep=" ")))
+    if form["long"]:          out.append(("big", sub(long=0)))
+    if form["comments"]:      out.append((f"comment={form['comment_cls']}", sub(comments=[])))
+    return out
+
+def plain_file(spec):
+    s = dict(spec, file=dict(FILE_DEFAULT), text=None, quote=None)
+    if spec.get("text"): s["X"], s["Y"] = spec["plain"]["X"], spec["plain"]["Y"]
+    return s
 
 # ================================================================================================ writers (common dialect)
 def _tok(v):
@@ -235,13 +366,32 @@ def _tok(v):
         return s
     return str(v)
 
+def _emit(spec, path, lines):
+    """lines -> file, in the layout the spec asks for"""
+    form = file_form(spec)
+    eol = form["eol"]
+    txt = eol.join(lines) + (eol if form["final_eol"] else "") + eol*form["blank_tail"]
+    opener = gzip.open if form["gz"] else open
+    with opener(path, "wt", encoding="utf8", newline="") as f: f.write(txt)
+
+def _arff_lines(spec, header, data):
+    """header + data rows with the comment lines of the layout put in: position -1 is inside the header, i is in front of data row i"""
+    com = file_form(spec)["comments"]
+    out = header[:1] + [t for i, t in com if i < 0] + header[1:]
+    for j in range(len(data) + 1):
+        out += [t for i, t in com if i == j or (j == len(data) and i > j)]
+        if j < len(data): out.append(data[j])
+    return out
+
+def _q(v, q): return f"{q}{v}{q}" if q else v
+
 def write_csv(spec, path):
-    pos, lines = spec["label_pos"], []
+    pos, lines, q = spec["label_pos"], [], spec.get("quote")
     if spec["has_header"]:
         h = list(spec["feat_names"]); h.insert(pos, spec["label_name"]); lines.append(",".join(h))
     for x, y in zip(spec["X"], spec["Y"]):
-        r = list(x); r.insert(pos, y); lines.append(",".join(r))
-    with open(path, "w", encoding="utf8", newline="") as f: f.write("\n".join(lines) + "\n")
+        r = list(x); r.insert(pos, y); lines.append(",".join(_q(v, q) for v in r))
+    _emit(spec, path, lines)
 
 def _arff_header(spec):
     kind = spec["label_kind"]
@@ -253,13 +403,14 @@ def _arff_header(spec):
     return ["@relation verif", ""] + [f"@attribute {n} {t}" for n, t in attrs] + ["", "@data"]
 
 def write_arff_dense(spec, path):
-    lines = _arff_header(spec)
+    lines, q = [], spec.get("quote")
     for x, y in zip(spec["X"], spec["Y"]):
-        r = [_tok(v) for v in x]; r.insert(spec["label_pos"], _tok(y)); lines.append(",".join(r))
-    with open(path, "w", encoding="utf8", newline="") as f: f.write("\n".join(lines) + "\n")
+        r = [_q(v, q) if c["type"] == "string" else _tok(v) for v, c in zip(x, spec["cols"])]
+        r.insert(spec["label_pos"], _q(y, q) if spec["label_kind"] == "str" else _tok(y)); lines.append(",".join(r))
+    _emit(spec, path, _arff_lines(spec, _arff_header(spec), lines))
 
 def write_arff_sparse(spec, path):
-    lines = _arff_header(spec)
+    lines = []
     numeric_label = spec["label_kind"] != "cat"
     for x, y in zip(spec["X"], spec["Y"]):
         r = list(x); r.insert(spec["label_pos"], y)
@@ -269,16 +420,16 @@ def write_arff_sparse(spec, path):
             if t == "numeric" and v == 0 and (i != spec["label_pos"] or spec["omit_zero_label"]): continue   # zeros are not stored
             cells.append(f"{i} {_tok(v)}")
         lines.append("{" + ",".join(cells) + "}")
-    with open(path, "w", encoding="utf8", newline="") as f: f.write("\n".join(lines) + "\n")
+    _emit(spec, path, _arff_lines(spec, _arff_header(spec), lines))
 
 def write_libsvm(spec, path, manik=False):
-    lines = []
+    lines, sep = [], file_form(spec)["sep"]
     if manik:
         nl = len({l for y in spec["Y"] for l in y}); nf = max([k for x in spec["X"] for k, _ in x] or [0]) + 1
         lines.append(f"{len(spec['X'])} {nf} {nl}")
     for x, y in zip(spec["X"], spec["Y"]):
-        lines.append(" ".join([",".join(map(str, y))] + [f"{k}:{_tok(v)}" for k, v in x]))
-    with open(path, "w", encoding="utf8", newline="") as f: f.write("\n".join(lines) + "\n")
+        lines.append(sep.join([",".join(map(str, y))] + [f"{k}:{_tok(v)}" for k, v in x]))
+    _emit(spec, path, lines)
 
 WRITERS = {"csv": write_csv, "arff_dense": write_arff_dense, "arff_sparse": write_arff_sparse, "libsvm": write_libsvm,
            "manik": lambda spec, path: write_libsvm(spec, path, manik=True)}
@@ -344,8 +495,10 @@ def build_args(spec, tmpdir, tag=""):
             rows.append(r)
         src, label_col = ListSource(rows), key
     else:
-        path = os.path.join(tmpdir, f"data{'c' if tag == 'c' else ''}.{mode}")
+        form = file_form(spec)
+        path = os.path.join(tmpdir, f"data{'c' if tag == 'c' else ''}.{mode}" + (".gz" if form["gz"] else ""))
         if tag not in ("2", "3"): WRITERS[mode](spec, path)              # fresh objects 2 and 3 re-open the file written for object 1
+        if form["url"]: path = "file://" + path
         if mode == "csv":
             src = CsvSource(path, has_header=spec["has_header"])
             label_col = spec["label_name"] if spec["by"] == "header" else spec["label_pos"]
@@ -442,12 +595,37 @@ def check_case(spec, ctx=None, tmpdir=None):
         try:
             _check(spec, ctx, tmpdir); return []
         except _Stop as s:
-            return [(s.sig, s.what)]
+            return [(_refine(spec, s.sig, tmpdir), s.what)]
     finally:
         if own: shutil.rmtree(tmpdir, ignore_errors=True)
 
+def _refine(spec, sig, tmpdir):
+    """a failure on a file whose layout / text is not the plain one names the features of the file it needs: the case is re-run with
+    the features switched off one after the other; the ones that cannot be switched off without changing the outcome go into the
+    signature (none when the plain file fails alike)"""
+    flags = file_flags(spec)
+    if not flags: return sig
+    def outcome(sp):
+        try: _check(sp, None, tmpdir); return None
+        except _Stop as s: return s.sig
+        except Exception as ex: return f"?{type(ex).__name__}"
+    if outcome(plain_file(spec)) == sig: return sig
+    cur, kept = spec, set()
+    while True:                                   # greedy: switch off whatever can be switched off without changing the outcome
+        for name, sp in file_flags(cur):
+            if name in kept: continue
+            if outcome(sp) == sig: cur = sp; break
+            kept.add(name)
+        else: break
+    needed = [name for name, _ in file_flags(cur)]
+    if not needed: return sig
+    # the mechanism sits in how the file is read, so the label kind / type / column form / take parts of the signature are dropped
+    parts = [p for p in sig.split("/") if p != spec["mode"] and not p.startswith(("label=", "type=", "feat=", "col="))]
+    return f"{spec['mode']}[{','.join(needed)}]/" + "/".join(parts)
+
 def _check(spec, ctx, tmpdir):
     from coba.environments import Environments, SupervisedSimulation
+    spec = expand(spec)
     mode, kind, lt, take = spec["mode"], spec["label_kind"], effective_ltype(spec), spec["take"]
     given = "inferred" if spec["label_type"] is None else lt
     cf, fk = col_form(spec), spec["feat_kind"]
@@ -468,7 +646,20 @@ def _check(spec, ctx, tmpdir):
     if ctx:
         size = "0" if N == 0 else "1" if N == 1 else "2-5" if N <= 5 else "6+"
         tclass = None if take is None else ("0" if take == 0 else "<N" if take < N else "=N" if take == N else ">N")
-        ctx.case((mode, kind, given, cf, fk, tclass, spec["pattern"], size, spec["kw"]), nontrivial=N >= 2)
+        ctx.case((mode, kind, given, cf, fk, tclass, spec["pattern"], size, spec["kw"], tuple(n_ for n_, _ in file_flags(spec))), nontrivial=N >= 2)
+    if mode in FILE_MODES:
+        form = file_form(spec)
+        note("file.plain" if not file_flags(spec) else "file.not_plain")
+        if spec.get("text"):      note(f"file.text.{spec['text']}")
+        if spec.get("quote"):     note("file.quoted")
+        if form["eol"] != "\n":   note("file.eol_crlf")
+        if not form["final_eol"]: note("file.no_final_eol")
+        if form["blank_tail"]:    note("file.blank_tail")
+        if form["gz"]:            note("file.gz")
+        if form["url"]:           note("file.url")
+        if form["sep"] != " ":    note("file.blanks")
+        if form["long"]:          note("file.big")
+        if form["comments"]:      note("file.arff_comments")
     if cf in ("index",) : note("labelcol.index")
     if cf in ("header", "key"): note("labelcol.header")
 
@@ -719,6 +910,7 @@ def _is_with_label(c, e):
 def child_observe(spec, tmpdir):
     from coba.environments import SupervisedSimulation
     try:
+        spec = expand(spec)
         a, k = build_args(spec, tmpdir, "c")
         r = _read(SupervisedSimulation(*a, **k))
         return {"obs": observe(r, spec, random.Random(spec["pseed"]))}
@@ -743,9 +935,18 @@ def cross_process(ctx, specs, tmpdir):
         out = os.path.join(tmpdir, f"out{hs}.json")
         env = dict(os.environ); env["PYTHONHASHSEED"] = hs
         try:
-            p = subprocess.run([sys.executable, "-W", "ignore", "-m", "vf.props.c14", "child", inp, out], env=env, cwd=HOME,
-                               timeout=240, capture_output=True, text=True)
-            with open(out) as f: outs.append(json.load(f)["res"])
+            if os.path.exists(out): os.remove(out)               # never read the output an earlier batch left behind
+            for attempt in (1, 2):                                # a child that died without output is started once more
+                p = subprocess.run([sys.executable, "-W", "ignore", "-m", "vf.props.c14", "child", inp, out], env=env, cwd=HOME,
+                                   timeout=240, capture_output=True, text=True)
+                if p.returncode == 0 and os.path.exists(out): break
+                ctx.count("crossprocess.child_restarted")
+                if os.path.exists(out): os.remove(out)
+            if p.returncode != 0 or not os.path.exists(out):
+                ctx.note_inconclusive(f"c14-child-interpreter-failed: exit {p.returncode}: {(p.stderr or '').strip()[-300:]}"); return
+            with open(out) as f: res = json.load(f)["res"]
+            if len(res) != len(specs): ctx.note_inconclusive("c14-child-interpreter-failed: incomplete output"); return
+            outs.append(res)
         except Exception as ex:
             ctx.note_inconclusive(f"c14-child-interpreter-failed: {type(ex).__name__}: {ex}"); return
     ctx.count("oracle.crossprocess.children", 2)
